@@ -10,6 +10,8 @@ res = {"seeded": sd}
 if not os.path.isdir(WT):
     r = sh("/verif/tools/mkworktree.sh %s" % WT); res["mkworktree"] = r.stdout[-200:]
 sh("git -C %s checkout -- src include" % WT)
+head = sh("git -C /repo rev-parse HEAD").stdout.strip()
+sh("git -C %s checkout -q --detach %s" % (WT, head))
 patch = os.path.join(sd, "patch.diff"); demo = os.path.join(sd, "demo.cpp")
 # unpatched demo
 r = sh("g++ -std=c++11 -w -I%s/include %s %s/src/*.cpp -o /tmp/mut/_demo0 && /tmp/mut/_demo0" % (WT, demo, WT), timeout=900)
